@@ -91,6 +91,8 @@ def run(ctx):
                 'not containing the agent, outside the grid), four observation functions; exhaustive: all poses x all areas in [-2,2]^2 on tagged '
                 'non-square grids; non-trivial = the observation shows at least one non-floor object')
     run_cases(ctx, cases(ctx))
+    osuite.run_histories(ctx, 150 if ctx.tier == 'quick' else 1500,
+                         lambda name, area, cs, kind, val, obs, state: oracle(ctx, name, area, cs, kind, val, obs, state))
 
 
 def replay(ctx, case):
